@@ -5,11 +5,14 @@
  *             search window and whether a page was delivered since.
  * assert    : never (persisting && same window requested again && nothing found in between): the caller's state would be
  *             identical at two loop heads under a deterministic environment = a lasso = non-termination.
- *             Result is a page offset or a documented error.
+ *             Result is a page offset or a documented error; offset, serial number and granule position returned by the serial-aware
+ *             search describe the SAME page (multiplexed streams: pages of other streams may follow the preferred stream's last page).
  */
 #include "vf_env.h"
 #include "vorbisfile.c"
 static int persisting_eof=0; static ogg_int64_t last_seek=-2; static int found_since=1; static int pbudget=5;
+#define NPG 5
+static ogg_int64_t pg_off[NPG], pg_gran[NPG]; static int pg_ser[NPG]; static int npg=0;   /* ghost: every page handed to the search */
 static int _seek_helper(OggVorbis_File *vf,ogg_int64_t off){
   CHECK(!(persisting_eof && off==last_seek && !found_since),"backward page search makes progress under a persisting end-of-data (no lasso)");
   last_seek=off; found_since=0;
@@ -20,7 +23,7 @@ static ogg_int64_t _get_next_page(OggVorbis_File *vf,ogg_page *og,ogg_int64_t bo
   ogg_int64_t r=ND_long();
   if(r<0){ ASSUME(r==OV_FALSE||r==OV_EOF||r==OV_EREAD); if(r==OV_EOF && ND_BOOL()) persisting_eof=1; if(r==OV_FALSE && boundary>0) vf->offset+=boundary; return r; }
   ASSUME(boundary>0 && r>=vf->offset && r<vf->offset+boundary); ogg_int64_t len=ND_range(27,65307); vf->offset=r+len; found_since=1;
-  env_fill_page(og); return r; }
+  env_fill_page(og); if(npg<NPG){ pg_off[npg]=r; pg_ser[npg]=ogg_page_serialno(og); pg_gran[npg]=ogg_page_granulepos(og); npg++; } return r; }
 void harness(void){
   OggVorbis_File vf; memset(&vf,0,sizeof vf); vf.datasource=&vf; vf.seekable=1;
   vf.end=ND_range(0,3L<<16); vf.offset=ND_range(0,3L<<16); ASSUME(vf.offset<=vf.end);
@@ -29,9 +32,15 @@ void harness(void){
   ogg_page og; memset(&og,0,sizeof og);
   ogg_int64_t r=_get_prev_page(&vf,begin,&og);
 #else
-  long list[1]={5}; int serial=5; ogg_int64_t gran=-1;
-  ogg_int64_t r=_get_prev_page_serial(&vf,begin,list,1,&serial,&gran);
+  long list[2]={5,6}; int serial=5; ogg_int64_t gran=-1;   /* a multiplexed link: two logical streams, stream 5 preferred */
+  ogg_int64_t r=_get_prev_page_serial(&vf,begin,list,2,&serial,&gran);
 #endif
   CHECK(r>=0 || r==OV_EREAD || r==OV_EBADLINK || r==OV_EFAULT,"documented result");
+#ifndef PLAIN
+  if(r>=0){ /* the three results describe ONE page: offset, serial number and granule position of the same page that was seen */
+    int ok=0, pref=0; for(int i=0;i<NPG;i++) if(i<npg){ if(pg_off[i]==r && pg_ser[i]==serial && pg_gran[i]==gran) ok=1; if(pg_off[i]==r && pg_ser[i]==5) pref=1; }
+    CHECK(ok,"returned offset, serial number and granule position belong to the same page");
+    if(pref && npg>=2 && pg_ser[npg-1]!=5) WITNESS_AT("preferred stream's page returned although another stream's page follows it"); }
+#endif
   if(r>=0) WITNESS_AT("page found"); else if(persisting_eof) WITNESS_AT("error under persisting end of data");
 }
